@@ -4,6 +4,7 @@
   seedtool.py import Cxx            confirm the sub-agent's mutants in /tmp/mut/Cxx/_mutants/{A,B} in that scratch
                                     worktree (suite unchanged, demo fails with / passes without) and keep them as
                                     /verif/seeded/Cxx-A, Cxx-B
+  seedtool.py import2 Cxx           same for the second round: /tmp/mut2/Cxx/_mutants/{C,D} -> seeded/Cxx-C, Cxx-D
   seedtool.py run <seed-id> [Cyy..] apply seeded/<seed-id>/patch.diff to /repo, run the quick checks of the listed
                                     properties (default: the seed's own), undo, record seeded/<seed-id>/result.json
 """
@@ -44,9 +45,9 @@ def demo(wt, path):
     return rc, out[-1500:]
 
 
-def do_import(pid):
-    wt = '/tmp/mut/%s' % pid
-    for v in ('A', 'B'):
+def do_import(pid, root='/tmp/mut', variants=('A', 'B')):
+    wt = '%s/%s' % (root, pid)
+    for v in variants:
         src = os.path.join(wt, '_mutants', v)
         if not os.path.exists(os.path.join(src, 'patch.diff')):
             print(pid, v, 'missing')
@@ -130,5 +131,8 @@ if __name__ == '__main__':
     if sys.argv[1] == 'import':
         for pid in sys.argv[2:]:
             do_import(pid)
+    elif sys.argv[1] == 'import2':
+        for pid in sys.argv[2:]:
+            do_import(pid, '/tmp/mut2', ('C', 'D'))
     elif sys.argv[1] == 'run':
         sys.exit(do_run(sys.argv[2], sys.argv[3:]))
